@@ -236,12 +236,12 @@ func refGlob(p, s []byte) bool {
 	return len(s) > 0 && s[0] == p[0] && refGlob(p[1:], s[1:])
 }
 
-var c07Alpha = []byte{'a', 'b', '*', '/', '.', '\n', '\\', '(', '[', '+', '|'}
+var c07Alpha = []byte{'a', 'b', '*', '/', '.', '\n', '\\', '(', '[', '+', '|', '%'} // '%': a pattern spliced into a format string
 
 // random valid-UTF-8 string of up to maxRunes runes
 func randUTF8(r *rand.Rand, maxRunes int) []byte {
 	n := r.IntN(maxRunes + 1)
-	pool := []rune{'a', 'b', 'c', '/', '.', '\n', '\\', '(', ')', '[', ']', '+', '?', '^', '$', '|', '{', '}', ' ', '\t', '\r',
+	pool := []rune{'a', 'b', 'c', '/', '.', '\n', '\\', '(', ')', '[', ']', '+', '?', '^', '$', '|', '{', '}', ' ', '\t', '\r', '%', '%', 's', 'd', 'v', '!',
 		0x00, 0x7f, 0x80, 0xe9, 0x3b1, 0x7ff, 0x800, 0x20ac, 0x2028, 0xfffd, 0xffff, 0x10000, 0x1f600, 0x10ffff}
 	var sb strings.Builder
 	for i := 0; i < n; i++ {
